@@ -313,3 +313,253 @@ Proof.
     destruct (swap_entry d i k) eqn:E; [|reflexivity]. apply swap_entry_sigma in E; [congruence|exact Hi|lia].
 Qed.
 Local Close Scope Z_scope.
+
+(* ================================================================================================ *)
+(* Part 3: the two-site gate on the store                                                             *)
+(* ================================================================================================ *)
+(* ---- positions in a list without duplicates -------------------------------------------------------- *)
+Lemma index_of_mid x pre rest : ~ In x pre -> index_of x (pre ++ x :: rest) = Some (length pre).
+Proof.
+  induction pre as [|y t IH]; intros Hn; cbn.
+  - rewrite Nat.eqb_refl. reflexivity.
+  - destruct (Nat.eqb_spec x y) as [->|Hne]; [exfalso; apply Hn; left; reflexivity|].
+    rewrite IH; [reflexivity|]. intros Hin. apply Hn. right. exact Hin.
+Qed.
+
+Lemma neighbour_index_child n x i : (forall p, parent n = Some p -> x <> p) -> index_of x (children n) = Some i ->
+  neighbour_index n x = Some (nparents n + i).
+Proof.
+  intros Hp Hi. unfold neighbour_index, nparents. destruct (parent n) as [p|].
+  - destruct (Nat.eqb_spec x p) as [->|_]; [exfalso; eapply Hp; reflexivity|]. rewrite Hi. cbn. f_equal. lia.
+  - rewrite Hi. reflexivity.
+Qed.
+
+(* a contiguous block of the children sits on a contiguous block of legs *)
+Lemma neighbour_index_block n : forall l pre post,
+  children n = pre ++ l ++ post -> NoDup (children n) -> (forall p, parent n = Some p -> ~ In p (children n)) ->
+  all_some (map (neighbour_index n) l) = Some (seq (nparents n + length pre) (length l)).
+Proof.
+  induction l as [|x l IH]; intros pre post Hc Hnd Hp; [reflexivity|].
+  cbn [map all_some length seq].
+  assert (Hx : ~ In x pre).
+  { rewrite Hc in Hnd. apply NoDup_remove_2 in Hnd. intros Hin. apply Hnd. apply in_or_app. left. exact Hin. }
+  rewrite (neighbour_index_child n x (length pre)).
+  - rewrite (IH (pre ++ [x]) post).
+    + rewrite app_length. cbn. replace (nparents n + (length pre + 1)) with (S (nparents n + length pre)) by lia. reflexivity.
+    + rewrite Hc, <- app_assoc. reflexivity.
+    + exact Hnd.
+    + exact Hp.
+  - intros p Hpar ->. apply (Hp p Hpar). rewrite Hc. apply in_or_app. right. left. reflexivity.
+  - rewrite Hc. cbn. apply index_of_mid. exact Hx.
+Qed.
+
+(* ---- structure (parent, children) produced by the Node leg operations ------------------------------- *)
+Lemma open_leg_to_parent_structure n p leg n' : open_leg_to_parent n p leg = Some n' ->
+  parent n' = Some p /\ children n' = children n.
+Proof.
+  unfold open_leg_to_parent. destruct (negb (is_root n)); [discriminate|].
+  destruct (negb (open_leg_ok n leg)); [discriminate|]. destruct (move leg 0 (perm n)); [|discriminate].
+  intros [= <-]. auto.
+Qed.
+
+Lemma olc_loop_structure orig : forall l n n', olc_loop orig n l = Some n' ->
+  parent n' = parent n /\ children n' = children n ++ map (fun t => fst (fst t)) l.
+Proof.
+  induction l as [|[[c leg] val] l IH]; intros n n' H; cbn [olc_loop] in H.
+  - injection H as <-. rewrite app_nil_r. auto.
+  - destruct (Nat.ltb leg orig); [discriminate H|]. apply IH in H. cbn in H. destruct H as [-> ->]. cbn [map fst].
+    rewrite <- app_assoc. auto.
+Qed.
+
+Lemma open_legs_to_children_structure n d n' : open_legs_to_children n d = Some n' ->
+  parent n' = parent n /\ children n' = children n ++ map fst d.
+Proof.
+  unfold open_legs_to_children. destruct (forallb _ d); [|discriminate]. intros H.
+  apply olc_loop_structure in H. rewrite map_map in H. exact H.
+Qed.
+
+Lemma exchange_structure n s1 l1 s2 l2 n' : exchange_open_leg_ranges n s1 l1 s2 l2 = Some n' ->
+  parent n' = parent n /\ children n' = children n.
+Proof.
+  unfold exchange_open_leg_ranges. destruct (if Nat.ltb s2 s1 then _ else _) as [[[a b] c] d].
+  destruct (Nat.ltb c (a + b)); [discriminate|]. destruct (pop_n d c (perm n)) as [[v2 p1]|]; [|discriminate].
+  destruct (pop_n b a p1) as [[v1 p2]|]; [|discriminate]. intros [= <-]. auto.
+Qed.
+
+Lemma map_fst_enum_from {A} k (l : list A) : map fst (enum_from k l) = l.
+Proof.
+  unfold enum_from. revert k. induction l as [|x t IH]; intros k; [reflexivity|]. cbn. f_equal. apply IH.
+Qed.
+
+(* _create_contracted_node: the new node hangs below the parent's parent; its children are the
+   other children of the parent and the children of the child, node_id1's side first *)
+Lemma create_contracted_node_structure shp pn cn c fp nn : create_contracted_node shp pn cn c fp = Some nn ->
+  parent nn = parent pn /\
+  children nn = if fp then remove_first c (children pn) ++ children cn else children cn ++ remove_first c (children pn).
+Proof.
+  unfold create_contracted_node.
+  destruct (match parent pn with Some pp => open_leg_to_parent (new_node shp) pp 0 | None => Some (new_node shp) end) as [n1|] eqn:E1; [|discriminate].
+  assert (H1 : parent n1 = parent pn /\ children n1 = []).
+  { destruct (parent pn) as [pp|].
+    - apply open_leg_to_parent_structure in E1. cbn in E1. tauto.
+    - injection E1 as <-. auto. }
+  destruct H1 as [Hp1 Hc1].
+  destruct (open_legs_to_children n1 _) as [n2|] eqn:E2; [|discriminate].
+  apply open_legs_to_children_structure in E2. destruct E2 as [Hp2 Hc2]. rewrite Hc1, Hp1 in *. cbn in Hc2.
+  destruct fp.
+  - intros [= <-]. rewrite map_app, !map_fst_enum_from in Hc2. auto.
+  - intros H. apply exchange_structure in H. destruct H as [-> ->]. rewrite map_app, !map_fst_enum_from in Hc2. auto.
+Qed.
+
+(* ---- the pair ---------------------------------------------------------------------------------------- *)
+(* what a well-formed tree guarantees about two neighbouring nodes a, b with records na, nb *)
+Record pair_ok (a : id) (na : node) (b : id) (nb : node) : Prop := {
+  po_ne : a <> b;
+  po_nda : NoDup (children na);
+  po_ndb : NoDup (children nb);
+  po_disj : forall x, In x (children na) -> In x (children nb) -> False;
+  po_selfa : ~ In a (children na) /\ parent na <> Some a;
+  po_selfb : ~ In b (children nb) /\ parent nb <> Some b;
+  po_para : forall p, parent na = Some p -> ~ In p (children na) /\ (p <> b -> ~ In p (children nb));
+  po_parb : forall p, parent nb = Some p -> ~ In p (children nb) /\ (p <> a -> ~ In p (children na));
+  po_adj : (In b (children na) /\ parent nb = Some a /\ ~ In a (children nb) /\ parent na <> Some b)
+           \/ (In a (children nb) /\ parent na = Some b /\ ~ In b (children na) /\ parent nb <> Some a);
+  po_va : nvirt na <= nlegs na;
+  po_vb : nvirt nb <= nlegs nb
+}.
+
+Lemma memb_true_In x l : memb x l = true <-> In x l.
+Proof.
+  unfold memb. rewrite existsb_exists. split.
+  - intros (y & Hy & E). apply Nat.eqb_eq in E. subst. exact Hy.
+  - intros H. exists x. split; [exact H|apply Nat.eqb_refl].
+Qed.
+Lemma memb_false_nIn x l : memb x l = false <-> ~ In x l.
+Proof. rewrite <- memb_true_In. destruct (memb x l); split; intros; try congruence; try tauto. Qed.
+
+Lemma remove_first_length x l : In x l -> length l = S (length (remove_first x l)).
+Proof. intros H. apply remove_first_perm in H. apply Permutation_length in H. exact H. Qed.
+
+Lemma remove_first_NoDup x l : NoDup l -> NoDup (remove_first x l) /\ ~ In x (remove_first x l) /\ incl (remove_first x l) l.
+Proof.
+  intros Hnd. destruct (in_dec Nat.eq_dec x l) as [Hin|Hnin].
+  - pose proof (remove_first_perm x l Hin) as Hp. assert (Hnd' : NoDup (x :: remove_first x l)) by (rewrite <- Hp; exact Hnd).
+    inversion Hnd'; subst. repeat split; auto. intros y Hy. rewrite Hp. right. exact Hy.
+  - assert (E : remove_first x l = l).
+    { clear Hnd. induction l as [|y t IH]; [reflexivity|]. cbn. destruct (Nat.eqb_spec x y) as [->|_]; [exfalso; apply Hnin; left; reflexivity|].
+      f_equal. apply IH. intros H. apply Hnin. right. exact H. }
+    rewrite E. repeat split; auto. apply incl_refl.
+Qed.
+
+(* which neighbours and open legs the two specifications name: the pair's other neighbours, the
+   tree parent on the upper node's specification, the root flag on the root's; the open legs are
+   those of the contracted node, node1's block first *)
+Theorem lbc_names a na b nb u v : pair_ok a na b nb -> lbc_nodes a na b nb = Some (u, v) ->
+  ls_open u = seq (nvirt na + nvirt nb - 2) (nopen na) /\
+  ls_open v = seq (nvirt na + nvirt nb - 2 + nopen na) (nopen nb) /\
+  ((In b (children na) /\
+    ls_parent u = parent na /\ ls_children u = remove_first b (children na) /\ ls_root u = is_root na /\
+    ls_parent v = None /\ ls_children v = children nb /\ ls_root v = false)
+   \/
+   (In a (children nb) /\
+    ls_parent u = None /\ ls_children u = children na /\ ls_root u = false /\
+    ls_parent v = parent nb /\ ls_children v = remove_first a (children nb) /\ ls_root v = is_root nb)).
+Proof.
+  intros Hok H. unfold lbc_nodes in H. pose proof (po_va _ _ _ _ Hok) as Hva. pose proof (po_vb _ _ _ _ Hok) as Hvb.
+  assert (Hopen : nlegs na + nlegs nb - 2 - (nvirt na + nvirt nb - 2 + nopen na) = nopen nb).
+  { unfold nopen. destruct (po_adj _ _ _ _ Hok) as [(Hin & Hp & _)|(Hin & Hp & _)].
+    - apply remove_first_length in Hin. unfold nvirt, nparents in *. rewrite Hp in *. lia.
+    - apply remove_first_length in Hin. unfold nvirt, nparents in *. rewrite Hp in *. lia. }
+  destruct (po_adj _ _ _ _ Hok) as [(Hin & Hp & Hnin & _)|(Hin & Hp & Hnin & _)].
+  - apply memb_false_nIn in Hnin. rewrite Hnin in H. apply memb_true_In in Hin. rewrite Hin in H. injection H as <- <-. cbn.
+    rewrite Hopen. split; [reflexivity|]. split; [reflexivity|]. left. apply memb_true_In in Hin.
+    repeat split; auto. unfold is_root at 2. rewrite Hp. apply andb_false_r.
+  - apply memb_true_In in Hin. rewrite Hin in H. injection H as <- <-. cbn.
+    rewrite Hopen. split; [reflexivity|]. split; [reflexivity|]. right. apply memb_true_In in Hin.
+    unfold is_root at 1 2. rewrite Hp. cbn. repeat split; auto.
+Qed.
+
+(* the two specifications partition the legs of the contracted node *)
+Theorem lbc_partition a na b nb u v shp pn cn nn :
+  pair_ok a na b nb -> lbc_nodes a na b nb = Some (u, v) ->
+  let a_top := memb b (children na) in
+  parent pn = parent (if a_top then na else nb) -> children pn = children (if a_top then na else nb) ->
+  children cn = children (if a_top then nb else na) ->
+  create_contracted_node shp pn cn (if a_top then b else a) a_top = Some nn ->
+  exists lu lv, find_leg_values nn u = Some lu /\ find_leg_values nn v = Some lv /\
+                Permutation (lu ++ lv) (seq 0 (nlegs na + nlegs nb - 2)).
+Proof.
+  intros Hok Hl a_top Hpp Hpc Hcc Hn.
+  destruct (lbc_names _ _ _ _ _ _ Hok Hl) as (Hou & Hov & Hcase).
+  apply create_contracted_node_structure in Hn. destruct Hn as [Hnp Hnc].
+  pose proof (po_va _ _ _ _ Hok) as Hva. pose proof (po_vb _ _ _ _ Hok) as Hvb.
+  destruct Hcase as [(Hin & Hup & Huc & _ & Hvp & Hvc & _)|(Hin & Hup & Huc & _ & Hvp & Hvc & _)].
+  - (* a is the parent *)
+    assert (Ha : a_top = true) by (apply memb_true_In; exact Hin). rewrite Ha in *.
+    rewrite Hpp in Hnp. rewrite Hpc, Hcc in Hnc.
+    destruct (remove_first_NoDup b (children na) (po_nda _ _ _ _ Hok)) as (Hnd1 & Hnb & Hincl).
+    assert (Hnd : NoDup (children nn)).
+    { rewrite Hnc. apply NoDup_app_iff. repeat split; auto; [apply (po_ndb _ _ _ _ Hok)|].
+      intros x H1 H2. apply (po_disj _ _ _ _ Hok x); auto. }
+    assert (Hpar : forall p, parent nn = Some p -> ~ In p (children nn)).
+    { intros p Hp. rewrite Hnp in Hp. destruct (po_para _ _ _ _ Hok p Hp) as [H1 H2]. rewrite Hnc. intros Hi.
+      apply in_app_or in Hi. destruct Hi as [Hi|Hi]; [apply H1; apply Hincl; exact Hi|].
+      apply H2; [|exact Hi]. destruct (po_adj _ _ _ _ Hok) as [(_ & _ & _ & Hx)|(_ & _ & Hx & _)]; congruence. }
+    pose proof (neighbour_index_block nn (remove_first b (children na)) [] (children nb) Hnc Hnd Hpar) as B1.
+    pose proof (neighbour_index_block nn (children nb) (remove_first b (children na)) [] ltac:(rewrite app_nil_r; exact Hnc) Hnd Hpar) as B2.
+    cbn [length] in B1. rewrite Nat.add_0_r in B1.
+    unfold find_leg_values. rewrite Huc, Hvc, B1, B2, Hup, Hvp, Hou, Hov.
+    eexists. eexists. split; [reflexivity|]. split; [reflexivity|].
+    assert (Hnpar : nparents nn = nparents na) by (unfold nparents; rewrite Hnp; reflexivity).
+    pose proof (remove_first_length _ _ Hin) as Hlen.
+    assert (Hpb : parent nb = Some a) by (destruct (po_adj _ _ _ _ Hok) as [(_ & ? & _)|(_ & _ & ? & _)]; [assumption|contradiction]).
+    set (k1 := length (remove_first b (children na))) in *. set (k2 := length (children nb)) in *.
+    assert (Hva' : nvirt na = nparents na + S k1) by (unfold nvirt; lia).
+    assert (Hvb' : nvirt nb = 1 + k2) by (unfold nvirt, nparents; rewrite Hpb; reflexivity).
+    assert (Hpl : (match parent na with Some _ => [0] | None => [] end) = seq 0 (nparents na)).
+    { unfold nparents. destruct (parent na); reflexivity. }
+    rewrite Hpl, Hnpar. cbn [app].
+    replace (nvirt na + nvirt nb - 2) with (nparents na + k1 + k2) by lia.
+    replace (nlegs na + nlegs nb - 2) with (nparents na + k1 + k2 + nopen na + nopen nb) by (unfold nopen; lia).
+    rewrite <- !app_assoc.
+    (* seq 0 np ++ seq np k1 ++ seq tv oa ++ seq (np+k1) k2 ++ seq (tv+oa) ob *)
+    rewrite (Permutation_app_swap_app (seq (nparents na + k1 + k2) (nopen na)) (seq (nparents na + k1) k2)).
+    rewrite !app_assoc. rewrite <- !seq_app. apply Permutation_refl.
+  - (* b is the parent *)
+    assert (Hnb : ~ In b (children na)) by (destruct (po_adj _ _ _ _ Hok) as [(? & _ & _ & _)|(_ & _ & ? & _)]; [|assumption];
+      destruct (po_adj _ _ _ _ Hok) as [(_ & _ & Hx & _)|(_ & _ & Hx & _)]; [contradiction|assumption]).
+    assert (Ha : a_top = false) by (apply memb_false_nIn; exact Hnb). rewrite Ha in *.
+    rewrite Hpp in Hnp. rewrite Hpc, Hcc in Hnc.
+    destruct (remove_first_NoDup a (children nb) (po_ndb _ _ _ _ Hok)) as (Hnd1 & Hna & Hincl).
+    assert (Hnd : NoDup (children nn)).
+    { rewrite Hnc. apply NoDup_app_iff. repeat split; auto; [apply (po_nda _ _ _ _ Hok)|].
+      intros x H1 H2. apply (po_disj _ _ _ _ Hok x); auto. }
+    assert (Hpar : forall p, parent nn = Some p -> ~ In p (children nn)).
+    { intros p Hp. rewrite Hnp in Hp. destruct (po_parb _ _ _ _ Hok p Hp) as [H1 H2]. rewrite Hnc. intros Hi.
+      apply in_app_or in Hi. destruct Hi as [Hi|Hi]; [|apply H1; apply Hincl; exact Hi].
+      apply H2; [|exact Hi]. destruct (po_adj _ _ _ _ Hok) as [(Hx & _)|(_ & _ & _ & Hx)]; [contradiction|congruence]. }
+    pose proof (neighbour_index_block nn (children na) [] (remove_first a (children nb)) Hnc Hnd Hpar) as B1.
+    pose proof (neighbour_index_block nn (remove_first a (children nb)) (children na) [] ltac:(rewrite app_nil_r; exact Hnc) Hnd Hpar) as B2.
+    cbn [length] in B1. rewrite Nat.add_0_r in B1.
+    unfold find_leg_values. rewrite Huc, Hvc, B1, B2, Hup, Hvp, Hou, Hov.
+    eexists. eexists. split; [reflexivity|]. split; [reflexivity|].
+    assert (Hnpar : nparents nn = nparents nb) by (unfold nparents; rewrite Hnp; reflexivity).
+    pose proof (remove_first_length _ _ Hin) as Hlen.
+    assert (Hpa : parent na = Some b) by (destruct (po_adj _ _ _ _ Hok) as [(? & _)|(_ & ? & _)]; [contradiction|assumption]).
+    set (k2 := length (remove_first a (children nb))) in *. set (k1 := length (children na)) in *.
+    assert (Hvb' : nvirt nb = nparents nb + S k2) by (unfold nvirt; lia).
+    assert (Hva' : nvirt na = 1 + k1) by (unfold nvirt, nparents; rewrite Hpa; reflexivity).
+    assert (Hpl : (match parent nb with Some _ => [0] | None => [] end) = seq 0 (nparents nb)).
+    { unfold nparents. destruct (parent nb); reflexivity. }
+    rewrite Hpl, Hnpar. cbn [app].
+    replace (nvirt na + nvirt nb - 2) with (nparents nb + k1 + k2) by lia.
+    replace (nlegs na + nlegs nb - 2) with (nparents nb + k1 + k2 + nopen na + nopen nb) by (unfold nopen; lia).
+    rewrite <- !app_assoc.
+    (* seq np k1 ++ seq tv oa ++ seq 0 np ++ seq (np+k1) k2 ++ seq (tv+oa) ob *)
+    rewrite (Permutation_app_swap_app (seq (nparents nb) k1) (seq (nparents nb + k1 + k2) (nopen na))).
+    rewrite (Permutation_app_swap_app (seq (nparents nb + k1 + k2) (nopen na)) (seq 0 (nparents nb))).
+    rewrite (Permutation_app_swap_app (seq (nparents nb + k1 + k2) (nopen na)) (seq (nparents nb) k1)).
+    rewrite (Permutation_app_swap_app (seq (nparents nb) k1) (seq 0 (nparents nb))).
+    rewrite (Permutation_app_swap_app (seq (nparents nb + k1 + k2) (nopen na)) (seq (nparents nb + k1) k2)).
+    rewrite !app_assoc. rewrite <- !seq_app. apply Permutation_refl.
+Qed.
